@@ -275,6 +275,44 @@ def check_sidereal(j):
     return out
 
 
+# -- sidereal time at its two seams: 0h UT (where the day term restarts) and theta = 0 (where it wraps) ------------
+
+SEAM_YEARS = [-4000, -1000, 0, 1000, 1582, 1900, 1987, 2000, 2024, 2100, 3000, 5000]
+SEAM_UT = [-300.0, -235.0, -120.0, -30.0, -1.0, -1e-3, 0.0, 1e-3, 0.01, 0.1, 0.5, 1.0, 30.0]       # seconds from 0h UT
+SEAM_WRAP = [-1.0, -0.01, -1e-4, 1e-4, 0.001, 0.01, 0.5, 1.0, 2.0]                                  # seconds from theta = 0
+
+
+def seam_instants(y):
+    """For year y: around 0h UT of every day whose sidereal time at 0h UT lies within 0.015 turn of the
+    wrap (the only days on which the sum of the 0h value and the day term can reach 1 before midnight)
+    and of every 10th day; and around the instant at which the sidereal time passes 0, every 20th day."""
+    n0 = c01.cal_fast().n(y, 1, 1)
+    n1 = c01.cal_fast().n(y + 1, 1, 1)
+    pts = []
+    for k, n in enumerate(range(n0, n1)):
+        j0 = n - 0.5
+        th0 = float(gmst_iau82(j0))
+        if th0 > 0.985 or th0 < 0.015 or k % 10 == 0:
+            pts += [j0 + d / 86400.0 for d in SEAM_UT]
+        if k % 20 == 0:
+            t_wrap = j0 + (1.0 - th0) / RATE
+            pts += [t_wrap + d / 86400.0 for d in SEAM_WRAP]
+    return [p for p in pts if 0.0 <= p <= 5.4e6]
+
+
+def run_sidereal_seams(block, ctx):
+    for y in block:
+        pts = seam_instants(y)
+        for j in pts:
+            ctx.evals += 1
+            ctx.nt_count += 1
+            for site, msg, dev in check_sidereal(j):
+                ctx.viol({"jde": j, "year": y}, msg, dev=dev, site="seam_" + site)
+        ctx.outcome((y, len(pts)))
+        ctx.obs(y, len(pts))
+    ctx.sample({"year": block[0], "instants": len(seam_instants(block[0]))})
+
+
 def jde_lattice(tier):
     from .c02 import boundary_instants, OFFSETS_S
     from ..fp import ulps
@@ -339,6 +377,9 @@ def clauses(tier):
         Clause("walk", chunks(ys, 128), run_walk, replay_walk, floor=100000, shape="S"),
         Clause("fractional_days", chunks(ys, 32), run_frac, replay_frac, floor=100000, shape="S"),
         Clause("sidereal", chunks(lat, 64), run_sidereal, replay_sidereal, floor=10000, shape="L"),
+        Clause("sidereal_seams", [[y] for y in (SEAM_YEARS if tier != "thorough" else
+                                                sorted(set(SEAM_YEARS + list(range(-4700, 6000, 100)))))],
+               run_sidereal_seams, replay_sidereal, floor=5000, shape="L"),
     ]
     # the weekday / day-of-year / year / sidereal views of ONE Epoch object over histories of observers and
     # in-place mutators (set, +=, -=): shared with C02, whose clause compares all views with a fresh object
